@@ -658,6 +658,10 @@ func (f *FeaturesByID) FindAreasByPoint(id b6.FeatureID) b6.AreaFeatures {
 					var p FullPoint
 					p.Unmarshal(&fb.Namespaces, t.Data)
 					paths = p.Paths
+				case PointTagReferencesOnly:
+					var p PointReferences
+					p.Unmarshal(&fb.Namespaces, t.Data)
+					paths = p.Paths
 				}
 			}
 			areas := make(map[Reference]struct{})
@@ -808,10 +812,16 @@ func (f *FeaturesByID) FindRelationsByFeature(id b6.FeatureID) b6.RelationFeatur
 
 func (f *FeaturesByID) fillRelationsFromPoint(fb *featureBlock, id uint64, relations []b6.RelationFeature) []b6.RelationFeature {
 	t, ok := fb.Map.FindFirst(id)
-	if ok && t.Tag == PointTagFull {
-		var p FullPoint
-		// TODO: don't need to unmarshal everything
-		p.Unmarshal(&fb.Namespaces, t.Data)
+	if ok && (t.Tag == PointTagFull || t.Tag == PointTagReferencesOnly) {
+		var p PointReferences
+		if t.Tag == PointTagFull {
+			var full FullPoint
+			// TODO: don't need to unmarshal everything
+			full.Unmarshal(&fb.Namespaces, t.Data)
+			p = full.PointReferences
+		} else {
+			p.Unmarshal(&fb.Namespaces, t.Data)
+		}
 		for _, r := range p.Relations {
 			for _, rm := range f.features[b6.FeatureTypeRelation] {
 				if _, ns := r.TypeAndNamespace.Split(); ns == rm.Namespaces[b6.FeatureTypeRelation] {
